@@ -1,0 +1,13 @@
+//go:build verif
+
+package configure
+
+// Start-up phase contract of Configure.Initialize as seen by the application (C09, C13): it may change any
+// configuration state, records a failure in the ghost trace, and invokes no runner.
+
+//@ method (Configure).Initialize
+//@ property C13 C09
+//@ assigns everything
+//@ ensures [failure-recorded] Failed == (old(Failed) || result != nil)
+//@ ensures [no-runner] RanLen == old(RanLen) && RanAt == old(RanAt) && RanSrc == old(RanSrc)
+//@ ensures [not-refreshed] Refreshed == old(Refreshed)
